@@ -313,6 +313,8 @@ def gen_request(rng, w, p, names):
                 "send_hup": [True, False], "cmd": ["simworker " + shlex.quote(w)], "env": [{"A": "1"}, {"B": "2"}],
                 "working_dir": ["/tmp"], "max_retry": [1, 3], "respawn": [True], "max_age": [0]}
         keys = rng.sample(sorted(pool), rng.choice([1, 1, 2, 2, 3]))
+        if rng.random() < 0.3:      # an option that asks for a reload, THEN numprocesses (every option must be applied)
+            keys = [rng.choice(["cmd", "env", "working_dir", "max_age"]), "numprocesses"]
         return {"op": "req", "cmd": "set", "props": {"name": name, "waiting": waiting,
                                                      "options": {k: rng.choice(pool[k]) for k in keys}}}
     elif cmd == "set_opt":
